@@ -230,6 +230,33 @@ fn par_case(rng: &mut Rng, rep: &mut Report, tag: &str, small: bool) {
             if fp != m || fp.len() != n {
                 return Err("from_par_iter built a different map".into());
             }
+            // an ordered source with repeated keys: the last occurrence wins, as in sequential collect
+            let dups: Vec<(u64, u64)> = (0..(3 * n as u64 + 40)).map(|i| (mix(i ^ salt) % (n as u64 / 2 + 5), i)).collect();
+            let seq_d: HashMap<u64, u64, Bh> = dups.iter().cloned().collect();
+            let par_d: HashMap<u64, u64, Bh> = dups.par_iter().cloned().collect();
+            if seq_d != par_d {
+                let k = seq_d.iter().find(|(k, v)| par_d.get(*k) != Some(*v)).map(|(k, _)| *k);
+                return Err(format!("from_par_iter of a source with repeated keys differs from sequential collect (e.g. key {k:?})"));
+            }
+            let seq_s: HashSet<u64, Bh> = dups.iter().map(|d| d.0).collect();
+            let par_s: HashSet<u64, Bh> = dups.par_iter().map(|d| d.0).collect();
+            if seq_s != par_s {
+                return Err("set from_par_iter differs from sequential collect".into());
+            }
+            // par_eq must agree with == also for values that are not equal to themselves
+            let mut nan: HashMap<u64, f64, Bh> = HashMap::with_hasher(bh);
+            for (i, k) in contents.keys().take(20).enumerate() {
+                nan.insert(*k, if i == 3 { f64::NAN } else { i as f64 });
+            }
+            #[allow(clippy::eq_op)]
+            let seq_self = nan == nan;
+            if nan.par_eq(&nan) != seq_self {
+                return Err(format!("par_eq(self) = {} but == gives {} for a map holding a NaN", nan.par_eq(&nan), seq_self));
+            }
+            let nan2 = nan.clone();
+            if nan.par_eq(&nan2) != (nan == nan2) {
+                return Err("par_eq disagrees with == for maps holding a NaN".into());
+            }
             // sets
             let keys: BTreeSet<u64> = contents.keys().copied().collect();
             let other: BTreeSet<u64> = keys.iter().copied().filter(|k| mix(*k ^ salt) % 3 != 0).chain((0..(n as u64 / 3)).map(|i| universe + i)).collect();
